@@ -216,7 +216,12 @@ class Contract:
         stubs=None,
         trace=None,
         exsures=(),
+        cuts=None,
     ):
+        # generalisation cuts: {"<function key>@<local>": {"lemma": text, "forget": [locals]}} - right after the assignment to
+        # <local> the lemma is PROVED of the current values, then the listed locals are replaced by fresh values of which only
+        # the lemma is known (assert-then-forget: sound, keeps later obligations small)
+        self.cuts = dict(cuts or {})
         self.exsures = list(exsures)  # clauses that must hold whenever an exception escapes
         # callee key (or "module:Class.*") -> descriptor of the value returned; the call is recorded, not executed
         self.trace = dict(trace or {})
